@@ -1,10 +1,10 @@
-use std::num::NonZeroU8;
+use std::num::NonZeroUsize;
 
 use crate::{error::MxcUriError, server_name};
 
 const PROTOCOL: &str = "mxc://";
 
-pub fn validate(uri: &str) -> Result<NonZeroU8, MxcUriError> {
+pub fn validate(uri: &str) -> Result<NonZeroUsize, MxcUriError> {
     let uri = match uri.strip_prefix(PROTOCOL) {
         Some(uri) => uri,
         None => return Err(MxcUriError::WrongSchema),
@@ -27,6 +27,6 @@ pub fn validate(uri: &str) -> Result<NonZeroU8, MxcUriError> {
     } else if server_name::validate(server_name).is_err() {
         Err(MxcUriError::ServerNameMalformed)
     } else {
-        Ok(NonZeroU8::new((index + 6) as u8).unwrap())
+        Ok(NonZeroUsize::new(index + PROTOCOL.len()).unwrap())
     }
 }
